@@ -1,6 +1,8 @@
 package main
 
 import (
+	"fmt"
+	"os"
 	"strings"
 	"time"
 
@@ -102,6 +104,9 @@ func c10(c *ctx) {
 		{"initiated+stop", []string{"stop"}, false, 600},
 		{"initiated+release", []string{"release"}, false, 600},
 		{"initiated-by-name+stop", []string{"stop"}, false, 600},
+		// many new peers whose FIRST datagram is an Association Release Request (it is handled while the association is
+		// being registered); each must be able to associate afterwards, and the agent must still stop
+		{"first-datagram-release+stop", []string{"strangers", "stop"}, false, 600},
 	}
 	reps := c.pick(2, 30)
 	for _, sc := range scripts {
@@ -112,6 +117,9 @@ func c10(c *ctx) {
 				}
 				if !c.thorough() && nAssoc == 3 && rep > 0 {
 					continue
+				}
+				if strings.HasPrefix(sc.name, "first-datagram") && (rep > 1 || (!c.thorough() && (rep > 0 || nAssoc == 3))) {
+					continue // thousands of peers per run: a few runs are enough
 				}
 				o := sysh.Opts{ReadTimeout: sc.readTO, HB: sc.hb}
 				initiated := strings.HasPrefix(sc.name, "initiated")
@@ -170,6 +178,7 @@ func c10(c *ctx) {
 					seids = append(seids, mine)
 				}
 				stopped, exitMs, stopIssued := false, int64(-1), false
+				strangersRefused := 0
 				stopKeep := func() {}
 				if nAssoc > 1 {
 					stopKeep = keepAlive(w.peers[1:])
@@ -214,6 +223,32 @@ func c10(c *ctx) {
 						if rep%2 == 1 {
 							time.Sleep(time.Duration(r.Intn(2000)) * time.Microsecond)
 						}
+					case "strangers":
+						bad := 0
+						for k := 0; k < strangersN(c) && bad < 2; k++ {
+							sp, err := w.s.NewPeer(true)
+							if err != nil {
+								break
+							}
+							_ = sp.SendRaw(sysh.Marshal(message.NewAssociationReleaseRequest(sp.NextSeq(), ie.NewNodeID(sp.Addr, "", ""))))
+							sp.Recv(30 * time.Millisecond) // its response
+							time.Sleep(2 * time.Millisecond)
+							// the same address now sets an association up: the request must be answered
+							// (retransmitted like a real peer would: the node forgets the released association asynchronously)
+							answered := false
+							for try := 0; try < 4 && !answered; try++ {
+								seq := sp.NextSeq()
+								_ = sp.SendRaw(sysh.Marshal(message.NewAssociationSetupRequest(seq, ie.NewNodeID(sp.Addr, "", ""), ie.NewRecoveryTimeStamp(time.Unix(1700000000, 0)))))
+								if rr, ok := sp.Recv(150 * time.Millisecond); ok && len(rr) > 0 {
+									answered = true
+								}
+							}
+							if !answered {
+								bad++
+								strangersRefused++
+							}
+							sp.Close()
+						}
 					case "settle":
 						time.Sleep(50 * time.Millisecond)
 						w.quiesce()
@@ -255,6 +290,9 @@ func c10(c *ctx) {
 				zero, once, more, installed := delCounts(log, ended)
 				// the peer can associate afresh; other associations are unaffected
 				fresh, others := 1, 1
+				if strangersRefused > 0 {
+					fresh = 0
+				}
 				if alive && !stopIssued && nAssoc > 0 {
 					w.peers[0].Fresh = true
 					w.peers[0].AnswerHB = true
@@ -276,4 +314,15 @@ func c10(c *ctx) {
 			}
 		}
 	}
+}
+
+func strangersN(c *ctx) int {
+	if v := os.Getenv("VERIF_STRANGERS"); v != "" {
+		n := 0
+		fmt.Sscanf(v, "%d", &n)
+		if n > 0 {
+			return n
+		}
+	}
+	return c.pick(250, 3000)
 }
